@@ -14,22 +14,30 @@ import (
 )
 
 // VerifSpan wraps the decoder's bump allocator.
-type VerifSpan struct{ s span }
+type VerifSpan struct {
+	s      span
+	blocks []unsafe.Pointer // every block so far (kept alive so that addresses stay distinct)
+}
 
 func NewVerifSpan() *VerifSpan {
 	v := &VerifSpan{}
 	v.s.init()
+	v.blocks = append(v.blocks, v.s.b)
 	return v
 }
 
-// Malloc returns the address handed out and the base address / size of the block it lies in.
-func (v *VerifSpan) Malloc(n, align int) (ptr, base uintptr, blockSize int) {
+// Malloc returns the index of the block the memory lies in, its offset inside that block,
+// the block's base address modulo 8 and the block size.
+func (v *VerifSpan) Malloc(n, align int) (blk int, off uintptr, baseMod8 int, blockSize int) {
 	p := v.s.Malloc(n, align)
-	return uintptr(p), uintptr(v.s.b), v.s.n
+	if v.s.b != v.blocks[len(v.blocks)-1] {
+		v.blocks = append(v.blocks, v.s.b)
+	}
+	return len(v.blocks) - 1, uintptr(p) - uintptr(v.s.b), int(uintptr(v.s.b) % 8), v.s.n
 }
 
-// Base returns the base address of the current block.
-func (v *VerifSpan) Base() uintptr { return uintptr(v.s.b) }
+// BaseMod8 returns the base address of the current block modulo 8.
+func (v *VerifSpan) BaseMod8() int { return int(uintptr(v.s.b) % 8) }
 
 // VerifDecoderRoute reports whether tDecoder.Malloc would bypass the span.
 func VerifDecoderRoute(n int, typed bool) bool {
